@@ -745,18 +745,15 @@ class Variant(productmd.composeinfo.VariantBase):
         self.name = parser.get(section, "name")
         self.type = parser.get(section, "type")
 
-        # child addons
-        addons = ""
-        if parser.has_option(section, "addons"):
-            addons = parser.get(section, "addons")
-        elif parser.has_option(section, "variants"):
-            addons = parser.get(section, "variants")
-        if addons:
-            variant_uids = [i for i in addons.split(",") if i]
-            for variant_uid in variant_uids:
-                variant = Variant(self._metadata)
-                variant.deserialize(parser, variant_uid, addon=True)
-                self.add(variant)
+        # child addons and child variants
+        variant_uids = []
+        for option in ("addons", "variants"):
+            if parser.has_option(section, option):
+                variant_uids.extend([i for i in parser.get(section, option).split(",") if i and i not in variant_uids])
+        for variant_uid in variant_uids:
+            variant = Variant(self._metadata)
+            variant.deserialize(parser, variant_uid, addon=True)
+            self.add(variant)
 
     def deserialize_1_0(self, parser, uid, addon=False):
         if addon and not parser.has_section(self._section):
@@ -767,13 +764,15 @@ class Variant(productmd.composeinfo.VariantBase):
         self.name = parser.get(self._section, "name")
         self.type = parser.get(self._section, "type")
 
-        # child addons
-        if parser.has_option(self._section, "addons"):
-            variant_uids = [i for i in parser.get(self._section, "addons").split(",") if i]
-            for variant_uid in variant_uids:
-                variant = Variant(self._metadata)
-                variant.deserialize(parser, variant_uid, addon=True)
-                self.add(variant)
+        # child addons and child variants
+        variant_uids = []
+        for option in ("addons", "variants"):
+            if parser.has_option(self._section, option):
+                variant_uids.extend([i for i in parser.get(self._section, option).split(",") if i and i not in variant_uids])
+        for variant_uid in variant_uids:
+            variant = Variant(self._metadata)
+            variant.deserialize(parser, variant_uid, addon=True)
+            self.add(variant)
 
     def serialize(self, parser):
         self.validate()
